@@ -363,6 +363,19 @@ sLUMemInit(fact_t fact, void *work, int_t lwork, int m, int n, int_t annz,
     
     info = sLUWorkInit(m, n, panel_size, iwork, dwork, Glu);
     if ( info ) {
+	if ( Glu->MemModel == SYSTEM && fact != SamePattern_SameRowPerm ) {
+	    /* arrays allocated by this call; with SamePattern_SameRowPerm
+	       they belong to the caller's L and U */
+	    SUPERLU_FREE(lusup);
+	    SUPERLU_FREE(ucol);
+	    SUPERLU_FREE(lsub);
+	    SUPERLU_FREE(usub);
+	    SUPERLU_FREE(xsup);
+	    SUPERLU_FREE(supno);
+	    SUPERLU_FREE(xlsub);
+	    SUPERLU_FREE(xlusup);
+	    SUPERLU_FREE(xusub);
+	}
 	SUPERLU_FREE(Glu->expanders);
 	Glu->expanders = NULL;
 	return ( info + smemory_usage(nzlmax, nzumax, nzlumax, n) + n);
@@ -419,6 +432,9 @@ sLUWorkInit(int m, int n, int panel_size, int **iworkptr,
     }
     if ( ! *dworkptr ) {
 	fprintf(stderr, "malloc fails for local dworkptr[].");
+	/* the integer work array was obtained above: give it back */
+	if ( Glu->MemModel == SYSTEM ) SUPERLU_FREE(*iworkptr);
+	else suser_free(isize, TAIL, Glu);
 	return (isize + dsize + n);
     }
 	
